@@ -1025,6 +1025,8 @@ class Eval:
 
     def named_call(self, e, generic, resolved, args, depth):
         name = short(generic)
+        if name == "iter::zip":
+            name = "Iterator::zip"      # `std::iter::zip(a, b)` is `a.into_iter().zip(b)`
         target = resolved or generic
         if self.effect_calls and name in self.effect_calls:
             self.out.append((self.full_conds(), tuple(self.loops), ("emit", name, tuple(args))))
